@@ -656,14 +656,14 @@ def generate(tier, seed):
             cases.append(make_case(vd_load, text, m, dt, kind))
 
     # 1. valid files
-    n_valid = 70 if quick else 1100
+    n_valid = 130 if quick else 1100
     for i in range(n_valid):
         dt = "float64" if i % 2 == 0 else "float32"
         big = (i % 10 == 0)
         spec = valid_spec(rnd, dt, nr=12 if big else None, nc=rnd.choice([11, 12]) if big else None)
         both(spec.render(rnd), "valid", dt)
     # 2. threshold
-    n_thr = 24 if quick else 300
+    n_thr = 40 if quick else 300
     for i in range(n_thr):
         dt = "float64" if i % 2 == 0 else "float32"
         spec = valid_spec(rnd, dt, nr=rnd.choice([2, 3]), nc=rnd.choice([2, 3, 4]),
@@ -685,14 +685,14 @@ def generate(tier, seed):
         spec = valid_spec(rnd, dt, nr=r, nc=c, style="ints", pattern=rnd.choice(["none", "one"]), ws=rnd.choice([0, 1]))
         for name, text in layouts(rnd, spec, range(1, r * c + 1)):
             both(text, "layout", dt, modes=("path",) if quick else ("path", "file"))
-    for i in range(3 if quick else 60):
+    for i in range(8 if quick else 60):
         dt = "float64" if i % 2 else "float32"
         spec = valid_spec(rnd, dt)
         ks = sorted(set([1, spec.nc, spec.nr, spec.nr * spec.nc, 10, rnd.randint(1, spec.nr * spec.nc)]))
         for name, text in layouts(rnd, spec, ks):
             both(text, "layout", dt, modes=("file",) if i % 2 else ("path",))
     # 4. header corruptions
-    n_cor = 3 if quick else 45
+    n_cor = 5 if quick else 45
     for i in range(n_cor):
         dt = "float64" if i % 2 == 0 else "float32"
         spec = valid_spec(rnd, dt, nr=rnd.choice([2, 3, 4, 5]), nc=rnd.choice([2, 3, 4, 6]),
